@@ -729,7 +729,7 @@ func runLoops(a *Analyzer, r *Results) {
 			trig := ev.Arg(0)
 			hv := Field(trig, "Hv")
 			target := Struct("state.HeightView", []string{"height", "view"}, []*Term{Field(hv, "height"), Bin("+", Field(hv, "view"), Const("1"))})
-			ev.Require("K9.election", props("C15", "C14", "C19"), "on an election trigger for (h,v) the main loop cancels everything older than (h,v+1) before forwarding, and forwards only if (h,v+1) is still issuable", "",
+			ev.Require("K9.election", props("C15", "C14", "C19", "C11", "C05"), "on an election trigger for (h,v) the main loop cancels everything older than (h,v+1) before forwarding, and forwards only if (h,v+1) is still issuable", "",
 				Done(Call("state.CancelOlderThan", vc, target)), ErrNil(Ext(1, Call("state.For", vc, target))))
 			// K9.exact: whether a trigger is forwarded depends on its (height, view) only through the registry's own
 			// staleness test: no other comparison of the trigger's position drops it
